@@ -9,7 +9,7 @@
       - for divergence_metric = "kl": the per-component Jensen-Shannon distances of the kernel density
         estimates at every scheduled sample.
     For divergence_metric = "intersection" everything after the projection is modelled: per-component
-    supports, winsorising, np.histogram(bins, range, density=True), normalisation, 1 - sum(min).
+    supports, winsorising, np.histogram(bins, range, density=True), normalisation, max(0.0, 1 - sum(min)).
     Windows are lists of stream indices (index of a sample = total_samples - 1 at its update).
     [m_calls] lists the library calls (kind, rows) the update makes, in order.  No proofs here. *)
 From MV Require Import Base Num Lifecycle Pairwise ChangeDet.
@@ -88,9 +88,10 @@ Definition build_hist (xs : list F) (k : Z) (lo hi : F) : list F * list F :=
 (** np.minimum on non-NaN values *)
 Definition np_minimum (a b : F) : F := if a <? b then a else b.
 
-(** _intersection_divergence: 1 - sum(min(reference, test)) *)
+(** _intersection_divergence: max(0.0, 1 - sum(min(reference, test))); Python's max(0.0, x) is 0.0 unless x > 0.0
+    (so -0.0 and NaN also give 0.0) *)
 Definition inter_div (dr dt : list F) : F :=
-  f1 - np_sum (map (fun p => np_minimum (fst p) (snd p)) (combine dr dt)).
+  pymax f0 (f1 - np_sum (map (fun p => np_minimum (fst p) (snd p)) (combine dr dt))).
 
 (** winsorising of a new projection to the component's support *)
 Definition clip (x lo hi : F) : F := if x <? lo then lo else if hi <? x then hi else x.
@@ -98,7 +99,7 @@ Definition clip (x lo hi : F) : F := if x <? lo then lo else if hi <? x then hi 
 (** ------------------------------- the detector ------------------------------- *)
 Record pc_params := {
   pc_w : Z;            (* window_size *)
-  pc_step : Z;         (* min(100, round(sample_period * window_size)) *)
+  pc_step : Z;         (* max(1, min(100, round(sample_period * window_size))) *)
   pc_thr : Z;          (* round(0.01 * window_size) *)
   pc_bins : Z;         (* floor(sqrt(window_size)) *)
   pc_delta : F;
